@@ -323,4 +323,40 @@ example : (setUTCS .hour (newDate .nan) [.obj one]).2.2 = [0] ∧ (setUTCS .hour
 example : newDateTime [.fin false 2500001 0, zero, .fin true 900000000 0] = none ∧
     Spec.dateUTC [.fin false 2500001 0, zero, .fin true 900000000 0] = some 1070244316800000 := by decide +kernel
 
+-- ================================================================ the host zone; Annex B; Date.parse; toJSON on generic objects
+
+/-- Dev setyear_invalid: d = new Date(NaN); d.setYear(99) stays NaN (B.2.5: t = +0, result 1999-01-01T00:00 local) -/
+example : (setLocal (.fixed 0) .year2 (newDate .nan) [.fin false 99 0]).2 = none ∧
+    Spec.setLocal (.fixed 0) .year2 none [.fin false 99 0] = some 915148800000 := by decide +kernel
+/-- Dev local_transition_hour: Europe/London, new Date(2015, 2, 29, 1, 30) (the hour skipped on 29 March 2015) -/
+example : newDateTimeIn .lon [.fin false 2015 0, .fin false 2 0, .fin false 29 0, one, .fin false 30 0] = some 1427592600000 ∧
+    Spec.dateLocal .eu1996 [.fin false 2015 0, .fin false 2 0, .fin false 29 0, one, .fin false 30 0] = some 1427589000000 := by decide +kernel
+/-- … and America/New_York, new Date(2015, 10, 1, 1, 30) (the hour repeated on 1 November 2015): Go takes the first (EDT) reading -/
+example : newDateTimeIn .ny [.fin false 2015 0, .fin false 10 0, one, one, .fin false 30 0] = some 1446355800000 ∧
+    Spec.dateLocal .us2007 [.fin false 2015 0, .fin false 10 0, one, one, .fin false 30 0] = some 1446359400000 := by decide +kernel
+/-- outside the transition hour both daylight rules agree with Go's zone tables as modelled: 2015-07-01T12:00 local -/
+example : newDateTimeIn .ny [.fin false 2015 0, .fin false 6 0, one, .fin false 12 0] = Spec.dateLocal .us2007 [.fin false 2015 0, .fin false 6 0, one, .fin false 12 0] ∧
+    newDateTimeIn .lon [.fin false 2015 0, .fin false 6 0, one, .fin false 12 0] = Spec.dateLocal .eu1996 [.fin false 2015 0, .fin false 6 0, one, .fin false 12 0] := by decide +kernel
+/-- Dev rfc1123_year_range: Date.parse(new Date(253402300800000).toUTCString()) -/
+example : parseOfUTCString (newDate (.fin false 253402300800000 0)) = none ∧ Spec.parseOfUTCString (some 253402300800000) = some 253402300800000 := by decide +kernel
+/-- Dev zone_abbrev_z: Date.parse(new Date(0).toString()) with time.Local = FixedZone("XYZ", 19800) -/
+example : parseOfToString (.fixed 19800) true (newDate zero) = none ∧ parseOfToString (.fixed 19800) false (newDate zero) = some 0 := by decide +kernel
+/-- Dev tojson_nonnumber_primitive -/
+example : toJSONGeneric .strNonNumeric true = .null ∧ Spec.toJSONGeneric .strNonNumeric true = .called ∧
+    toJSONGeneric .undef false = .null ∧ Spec.toJSONGeneric .undef false = .typeError := by decide
+/-- toJSON on a generic object agrees with §15.9.5.44 for every other primitive (finite domain, exhaustive) -/
+theorem toJSON_generic (p : Prim) (sp : Spec.Prim) (c : Bool)
+    (h : (p, sp) ∈ [(Prim.numFinite, Spec.Prim.numFinite), (.numNaN, .numNaN), (.numInf, .numInf), (.strNumeric, .strNumeric), (.boolTrue, .boolTrue)]) :
+    (toJSONGeneric p c = .null ↔ Spec.toJSONGeneric sp c = .null) ∧ (toJSONGeneric p c = .called ↔ Spec.toJSONGeneric sp c = .called) := by
+  simp only [List.mem_cons, List.mem_nil_iff, or_false, Prod.mk.injEq] at h
+  rcases h with ⟨rfl, rfl⟩ | ⟨rfl, rfl⟩ | ⟨rfl, rfl⟩ | ⟨rfl, rfl⟩ | ⟨rfl, rfl⟩ <;> cases c <;> decide
+/-- Dev parse_hour_24: Date.parse("2000-01-01T24:00:00Z") -/
+example : dateParseFamily [50,48,48,48,45,48,49,45,48,49,84,50,52,58,48,48,58,48,48,90] = some none ∧
+    Spec.parseFields 2000 1 1 24 0 0 0 1 0 0 = some 946771200000 := by decide +kernel
+/-- Dev parse_offset_minute_60: Date.parse("2000-01-01T00:00+00:60") -/
+example : dateParseFamily [50,48,48,48,45,48,49,45,48,49,84,48,48,58,48,48,43,48,48,58,54,48] = some (some 946681200000) ∧
+    Spec.parseFields 2000 1 1 0 0 0 0 1 0 60 = none := by decide +kernel
+/-- Dev date_function_utc: the model of `Date()` never agrees with `new Date().toString()` unless time.Local is named GMT -/
+example : dateFunctionAgrees false = false := rfl
+
 end OttoVerif.C12.Thm
